@@ -72,6 +72,7 @@ class Registry:
         self.decorators: Dict[int, Callable[..., Any]] = {}
         self.used_stubs: set = set()
         self.inlined: set = set()
+        self.method_models: Dict[Tuple[int, str], Callable[..., Any]] = {}
 
     def stub_for(self, key: str) -> Optional[Callable[..., Any]]:
         s = self.stubs.get(key)
@@ -96,6 +97,11 @@ class Registry:
             m = None
         if m is not None:
             return m
+        recv = getattr(fn, '__self__', None)
+        if recv is not None and self.method_models:
+            mm = self.method_models.get((id(recv), getattr(fn, '__name__', '')))
+            if mm is not None:
+                return mm
         f = getattr(fn, '__func__', None)
         if f is not None and getattr(fn, '__self__', None) is not None:
             m2 = self.extra_models.get(id(f))
@@ -103,6 +109,11 @@ class Registry:
                 s = fn.__self__
                 return lambda I, *a, **k: m2(I, s, *a, **k)
         return models.MODELS.get(id(fn))
+
+    def add_method_model(self, receiver: Any, name: str, fn: Callable[..., Any]) -> None:
+        """Model of receiver.<name>(...) for one particular receiver object (e.g. a compiled regex)."""
+        self.method_models[(id(receiver), name)] = fn
+        self._keep.append(receiver)
 
     def add_model(self, obj: Any, fn: Callable[..., Any]) -> None:
         self.extra_models[id(obj)] = fn
@@ -131,6 +142,23 @@ class Registry:
             self.yield_hook(interp, frame, v)
 
     def closure_for_nested(self, interp: Interp, fn: Any) -> Optional[Closure]:
+        """Closure of a nested repo function (e.g. the fget/fset made by response_helpers._header_property):
+        its def is located by name + first line in the current source, its free variables are bound from the cells."""
+        import ast as _ast
+
+        from .interp import Frame
+
+        code = getattr(fn, '__code__', None)
+        mod = getattr(fn, '__module__', None)
+        if code is None or not mod or not interp.is_repo_module(mod):
+            return None
+        tree = interp.index.module(mod)[0]
+        for node in _ast.walk(tree):
+            if isinstance(node, (_ast.FunctionDef, _ast.AsyncFunctionDef)) and node.name == fn.__name__ and node.lineno == code.co_firstlineno:
+                parent = Frame(None, sys.modules[mod], None)
+                for name, cell in zip(code.co_freevars, fn.__closure__ or ()):
+                    parent.locals[name] = cell.cell_contents
+                return Closure(node, sys.modules[mod], fn.__qualname__, parent, None, mod)
         return None
 
 
